@@ -6,7 +6,7 @@
    C11 containment, and Empty.empty_one_info (nothing is issued for an entry that is not ok_to_delete).
    Proofs in Proofs/CalendarProofs.v. *)
 From TV Require Import Prelude.Str Codec.DateFmt Codec.TrashInfo Logic.Calendar Prog.Prog Cmd.Empty
-  Proofs.ProgProofs Proofs.PathProofs Proofs.CalendarProofs Proofs.DecisionProofs.
+  Proofs.ProgProofs Proofs.PathProofs Proofs.CalendarProofs Proofs.DecisionProofs World.World Proofs.WorldProofs Proofs.WorldPurge.
 Open Scope Z_scope.
 
 (* the comparison datetime < datetime is the order of instants *)
@@ -38,6 +38,16 @@ Theorem empty_removes_only_approved : forall o, Forall clean (eo_trash_dirs o) -
   all_runs (fun t _ => accepts (decision_step (eo_days o) (env_now (eo_environ o))) (mkdst None []) t <> None) (empty_main o).
 Proof. exact empty_only_approved_lemma. Qed.
 Print Assumptions empty_removes_only_approved.
+
+(* ---- on the tree of files (World.v): with a DAYS argument, in every file system the run is consistent with, every path that
+   is not at or below a path the monitor approved - the info file or the payload of an entry whose contents as just read
+   were older than the threshold, or a payload whose info file was found missing - is after the run what it was before. *)
+Theorem empty_days_changes_only_approved : forall o dd, eo_days o = Some dd -> Forall clean (eo_trash_dirs o) ->
+  all_runs (fun t _ => forall st, accepts (decision_step (eo_days o) (env_now (eo_environ o))) (mkdst None []) t = Some st ->
+              forall q, (forall p, In p (d_approved st) -> under p q = false) ->
+              forall s s', wrun s t s' -> wfs s' q = wfs s q) (empty_main o).
+Proof. exact empty_days_world_lemma. Qed.
+Print Assumptions empty_days_changes_only_approved.
 
 Theorem is_old_iff : forall days now c,
   is_old days now c = true <-> exists d, parse_deletion_date c = Some d /\ older_than days now d = Some true.
